@@ -416,9 +416,11 @@ class LAGenericMacro(Macro):
                 "after multiplying coeffs, both sides should be number")
         lhs_const, rhs_const = eval_const(lhs_sum_norm), eval_const(rhs_sum_norm)
         cond = False
-        if all(dis_eq.is_equals() for dis_eq in dis_eq_step3):
+        # A disequality multiplied by zero contributes 0 = 0: it cannot make the sum strict
+        active = [dis_eq for coeff, dis_eq in zip(coeffs, dis_eq_step3) if eval_const(coeff) != 0]
+        if all(dis_eq.is_equals() for dis_eq in active):
             cond = (rhs_const != lhs_const)
-        elif all(dis_eq.is_equals() or dis_eq.is_greater_eq() for dis_eq in dis_eq_step3):
+        elif all(dis_eq.is_equals() or dis_eq.is_greater_eq() for dis_eq in active):
             cond = (rhs_const > lhs_const) # lhs <= rhs -> check 
         else:
             cond = (rhs_const >= lhs_const)
